@@ -56,8 +56,10 @@ func StdFuncs() map[string]*FuncSpec {
 				return cty.NilVal, errors.New("argument has no length")
 			}},
 		{Name: "slen", Params: []FuncParam{str},
-			Ret:  func(a []cty.Value) cty.Type { return cty.Number },
-			Impl: func(a []cty.Value) (cty.Value, error) { return cty.NumberIntVal(int64(len([]rune(a[0].AsString())))), nil }},
+			Ret: func(a []cty.Value) cty.Type { return cty.Number },
+			Impl: func(a []cty.Value) (cty.Value, error) {
+				return cty.NumberIntVal(int64(len([]rune(a[0].AsString())))), nil
+			}},
 		{Name: "id", Params: []FuncParam{anyP},
 			Ret:  func(a []cty.Value) cty.Type { return a[0].Type() },
 			Impl: func(a []cty.Value) (cty.Value, error) { return a[0], nil }},
